@@ -25,6 +25,7 @@ def run(chk, program, tier):
     K.eof_rule(chk, program)
     K.fault_path(chk, program)
     K.retry_rule(chk, program)
+    K.retry_hook_cannot_raise(chk, program)
     K.one_rx(chk, program)
     K.lock_window(chk, program)
     K.yield_rule(chk, program)
